@@ -1,4 +1,5 @@
 import MosnVerif.Lemmas.LB
+import MosnVerif.Lemmas.Snapshot
 /-!
 # C05 — load balancers return only current, healthy members (property theorems only)
 
@@ -92,5 +93,65 @@ example : keyed .maglev { table := some 2 } = true ∧ ∃ i, hAt hs3 i = true :
 example : (choose .rr 2 hs3 { rr := 4294967295 } {}).result = some 1 := by decide
 example : (choose .ewma 2 hs3 {} { draws := [0, 0] }).result = some 1 := by decide
 example : (choose .lc 0 (hs3.map ({ · with healthy := false })) {} { draws := [1] }).result = none := by decide
+
+/-! ## a lookup concurrent with a host-set replacement sees entirely the old or entirely the new set
+
+`Gen/Snapshot.lean` is the regenerated step program of `simpleCluster.UpdateHosts` (source order, origin of the components
+of the stored `clusterSnapshot`, writes into a published record), the number of loads in `Snapshot()` and the number of
+writes to `clusterSnapshot` fields elsewhere. `Model/Snapshot.lean` runs any number of `UpdateHosts` calls (thread `v`
+installs host set number `v`; 0 is the initial set) and lookups (`Snapshot()`; `.LoadBalancer()`; `.HostSet()`) under an
+arbitrary schedule. A lookup *sees* `(x, y)`: the balancer it used was built over host set `x`, the host set it read is
+`y`. The theorems above (`member`, `healthy_result`, `complete`, `none_only_if`) are about one host list; they apply to a
+concurrent lookup because `x = y`: it evaluates one `(hostSet, lb)` pair. -/
+section SnapshotCoherence
+open MosnVerif.Model.Snapshot MosnVerif.Gen.Snapshot
+
+/-- **snapshot_publication_discipline**: the regenerated `UpdateHosts` stores only NEW records whose balancer was built
+over the very host set stored with it, never writes a published record; `Snapshot()` loads the cell once; nothing else in
+the package writes a `clusterSnapshot` field. -/
+theorem snapshot_publication_discipline : coherentPublication = true := by decide
+
+/-- **snapshot_coherent**: for every update program with that discipline, every number of concurrent `UpdateHosts` calls
+and lookups and every schedule: a finished lookup saw a balancer and a host set of the SAME replacement, and that
+replacement is the initial set or one that some `UpdateHosts` call has stored. -/
+theorem snapshot_coherent (prog : List UStep) (h : publishOk prog = true) (nUpd : Nat) (sched : List Nat) (t x y : Nat)
+    (hs : seen (run (initConf prog nUpd) sched) t = some (x, y)) :
+    x = y ∧ x ≤ nUpd ∧ x ∈ (run (initConf prog nUpd) sched).cl.published := by
+  have I := inv_run sched _ (inv_init prog h nUpd)
+  have B := pubBound_run nUpd sched _ (pubBound_init prog nUpd)
+  have ht := I.thr t
+  unfold seen at hs
+  split at hs
+  · rename_i x' y' heq
+    simp only [Option.some.injEq, Prod.mk.injEq] at hs
+    obtain ⟨rfl, rfl⟩ := hs
+    rw [heq] at ht
+    exact ⟨ht.1, B.1 _ ht.2, ht.2⟩
+  · simp at hs
+
+/-- **lookup_sees_old_or_new**: one `UpdateHosts` (the regenerated program) concurrent with any number of lookups, every
+schedule: each lookup sees entirely the old pair `(0, 0)` or entirely the new pair `(1, 1)`. -/
+theorem lookup_sees_old_or_new (sched : List Nat) (t x y : Nat)
+    (hs : seen (run (initConf updateHosts 1) sched) t = some (x, y)) : (x, y) = (0, 0) ∨ (x, y) = (1, 1) := by
+  have hd : publishOk updateHosts = true := by decide
+  obtain ⟨rfl, hle, _⟩ := snapshot_coherent updateHosts hd 1 sched t x y hs
+  have : x = 0 ∨ x = 1 := by omega
+  rcases this with rfl | rfl
+  · exact Or.inl rfl
+  · exact Or.inr rfl
+
+-- non-vacuity: the lookup (thread 0) loads before the update (thread 1) stores: it sees the old pair; the lookup of
+-- thread 2 starts afterwards and sees the new pair
+example : seen (run (initConf updateHosts 1) [0, 1, 1, 0, 1, 1, 1, 0, 1, 1, 2, 2, 2]) 0 = some (0, 0) ∧
+    seen (run (initConf updateHosts 1) [0, 1, 1, 0, 1, 1, 1, 0, 1, 1, 2, 2, 2]) 2 = some (1, 1) := by decide
+
+/-- **update_in_place_mixes** (negative witness, machine-checked): a variant of `UpdateHosts` that updates the published
+record in place instead of storing a new one violates the discipline, and the schedule "lookup loads and reads the
+balancer; the update runs; the lookup reads the host set" makes the lookup see the OLD balancer with the NEW host set. -/
+theorem update_in_place_mixes :
+    publishOk updateInPlace = false ∧
+    seen (run (initConf updateInPlace 1) [0, 0, 1, 1, 1, 1, 1, 1, 1, 1, 0]) 0 = some (0, 1) := by decide
+
+end SnapshotCoherence
 
 end MosnVerif.Props.C05
